@@ -401,7 +401,9 @@ def loop_of_element(fn, fa, link):
     nxt = [x for x in walk(link) if is_iter_next(x)]
     if not nxt:
         return None
-    arms = result_arms(fn, fa, lambda e: e == nxt[0])
+    from .expr import strip_old
+    want = strip_old(nxt[0])
+    arms = result_arms(fn, fa, lambda e: e == nxt[0] or strip_old(e) == want)
     if len(arms) != 1 or "Some" not in arms[0][1] or "None" not in arms[0][1]:
         return None
     cfg = cfg_of(fn)
